@@ -173,7 +173,7 @@ def run(tier):
     cases = corpus.generate(rep, specs)
     rep.exhaustive = True
     if tier == "quick":
-        keep = {"elementwise": 24, "update_at": 16, "get_at": 12, "id": 12, "preserve": 6, "argfind": 8, "reduce": 3}
+        keep = {"elementwise": 24, "update_at": 40, "get_at": 12, "id": 12, "preserve": 6, "argfind": 8, "reduce": 3}
         cases = [c for i, c in enumerate(cases) if i % keep.get(c["fam"], 1) == 0]
     items = [{"case": c, "seed": common.seed() * 13 + i, "ops": OPS[c["fam"]] if tier == "thorough" else [OPS[c["fam"]][i % len(OPS[c["fam"]])], OPS[c["fam"]][(i + 1) % len(OPS[c["fam"]])]]}
              for i, c in enumerate(cases)]
